@@ -723,3 +723,228 @@ pub fn sink_summary(ex: &ProgExec) -> (u64, u64) {
     let failed = ex.sink.events.iter().filter(|e| !matches!(e.outcome, Outcome::Accepted(_))).count() as u64;
     (calls, failed)
 }
+
+// ---------------------------------------------------------------- C16
+
+fn child_boxes(entry: &[u8], fixed: usize) -> Vec<([u8; 4], &[u8])> {
+    // children of a sample entry: after 8-byte header + `fixed` bytes
+    let mut out = Vec::new();
+    let mut pos = 8 + fixed;
+    while pos + 8 <= entry.len() {
+        let sz = u32::from_be_bytes([entry[pos], entry[pos + 1], entry[pos + 2], entry[pos + 3]]) as usize;
+        if sz < 8 || pos + sz > entry.len() {
+            break;
+        }
+        let t = [entry[pos + 4], entry[pos + 5], entry[pos + 6], entry[pos + 7]];
+        out.push((t, &entry[pos + 8..pos + sz]));
+        pos += sz;
+    }
+    out
+}
+
+/// Parameter sets (first of each kind) of the first accepted frame, by the independent splitter.
+fn first_parameter_sets(codec: VCodec, data: &[u8]) -> Vec<(u8, Vec<u8>)> {
+    let units = crate::frames::annexb_units(data);
+    let mut out: Vec<(u8, Vec<u8>)> = Vec::new();
+    let want: &[u8] = match codec {
+        VCodec::H264 => &[7, 8],
+        VCodec::H265 => &[32, 33, 34],
+        _ => &[],
+    };
+    for &w in want {
+        for u in &units {
+            let t = if codec == VCodec::H264 { u[0] & 0x1f } else { (u[0] >> 1) & 0x3f };
+            if t == w {
+                out.push((w, u.to_vec()));
+                break;
+            }
+        }
+    }
+    out
+}
+
+pub fn c16_numeric(prop: &'static str, case: &ProgCase, lm: &LogicalMovie, bytes: &[u8]) -> Vec<Violation> {
+    let mut out = Vec::new();
+    let p = match parse_file(bytes) {
+        Ok(p) => p,
+        Err(e) => {
+            out.push(v(prop, "box-size", normalise(&e), format!("declared box sizes do not tile the file: {}", e)));
+            return out;
+        }
+    };
+    let vcfg = match &case.cfg.video {
+        Some(v) => v,
+        None => return out,
+    };
+    // timing fields, exact in 128-bit arithmetic
+    let mut totals: Vec<(String, i128)> = Vec::new();
+    for (name, t, want) in [("video", video_track(&p.movie), &lm.video), ("audio", audio_track(&p.movie), &lm.audio)] {
+        let t = match t {
+            Some(t) => t,
+            None => continue,
+        };
+        if t.samples.len() != want.len() {
+            out.push(v(prop, "sample-count", name, format!("{} track has {} samples, {} accepted", name, t.samples.len(), want.len())));
+            return out;
+        }
+        let n = want.len();
+        let exact = !want.iter().any(|s| s.pts.saturated || s.dts.saturated);
+        let mut total: i128 = 0;
+        for k in 0..n {
+            let d = t.samples[k].duration as i128;
+            total += d;
+            if exact && k + 1 < n {
+                let wd = want[k + 1].dts.exact as i128 - want[k].dts.exact as i128;
+                let alt_ok = want[k + 1].dts.alt.is_some() || want[k].dts.alt.is_some();
+                if d != wd && !(alt_ok && (d - wd).abs() <= 2) {
+                    out.push(v(prop, "sample-duration", format!("{}:{}", name, if wd > u32::MAX as i128 { "wrapped" } else { "value" }), format!("{} sample {}: stts duration {} but decode-time difference is {}", name, k, d, wd)));
+                    return out;
+                }
+            }
+            if exact && name == "video" {
+                let wc = want[k].pts.exact as i128 - want[k].dts.exact as i128;
+                let alt_ok = want[k].pts.alt.is_some() || want[k].dts.alt.is_some();
+                let c = t.samples[k].cts as i128;
+                if c != wc && !(alt_ok && (c - wc).abs() <= 2) {
+                    out.push(v(prop, "composition-offset", if wc.abs() > i32::MAX as i128 { "wrapped" } else { "value" }, format!("video sample {}: ctts offset {} but pts-dts = {}", k, c, wc)));
+                    return out;
+                }
+            }
+            let w = &want[k];
+            if t.samples[k].size as usize != w.stored.len() {
+                out.push(v(prop, "sample-size", name, format!("{} sample {}: stsz {} but stored payload is {} bytes", name, k, t.samples[k].size, w.stored.len())));
+                return out;
+            }
+        }
+        if t.mdhd_duration as i128 != total {
+            out.push(v(
+                prop,
+                "media-duration",
+                format!("{}:{}", name, if total > u32::MAX as i128 { "wrapped" } else { "value" }),
+                format!("{} track: mdhd (version {}) declares duration {} but the sample durations sum to {}", name, t.mdhd_version, t.mdhd_duration, total),
+            ));
+            return out;
+        }
+        totals.push((name.to_string(), total));
+    }
+    // movie duration in the movie timescale: floor/round/ceil of the video or the longest track
+    if p.movie.mvhd_timescale > 0 && !totals.is_empty() {
+        let ts = p.movie.mvhd_timescale as i128;
+        let mut ok = false;
+        let mut cands = Vec::new();
+        let longest = totals.iter().map(|t| t.1).max().unwrap();
+        for base in [totals[0].1, longest] {
+            let num = base * ts;
+            let fl = num / 90000;
+            let ce = (num + 89999) / 90000;
+            let ro = (num + 45000) / 90000;
+            for c in [fl, ce, ro] {
+                cands.push(c);
+                if p.movie.mvhd_duration as i128 == c {
+                    ok = true;
+                }
+            }
+        }
+        if !ok {
+            let wrapped = cands.iter().any(|c| *c > u32::MAX as i128);
+            out.push(v(prop, "movie-duration", if wrapped { "wrapped" } else { "value" }, format!("mvhd (version {}) declares duration {} in timescale {}; the tracks imply one of {:?}", p.movie.mvhd_version, p.movie.mvhd_duration, ts, cands)));
+            return out;
+        }
+    }
+    // sample entries
+    if let Some(t) = video_track(&p.movie) {
+        if t.width.map(|w| w as u32) != Some(vcfg.width) || t.height.map(|h| h as u32) != Some(vcfg.height) {
+            out.push(v(prop, "dimensions", "sample-entry", format!("visual sample entry says {:?}x{:?}, configured {}x{}", t.width, t.height, vcfg.width, vcfg.height)));
+            return out;
+        }
+        // parameter-set lengths
+        if let Some(first) = lm.video.first() {
+            if let Some(Op::Video { data, .. } | Op::VideoDts { data, .. } | Op::EncVideo { data, .. }) = case.ops.get(first.op_index) {
+                let sets = first_parameter_sets(vcfg.codec, &data.0);
+                let kids = child_boxes(&t.stsd_entry, 78);
+                match vcfg.codec {
+                    VCodec::H264 => {
+                        if let Some((_, c)) = kids.iter().find(|(t, _)| t == b"avcC") {
+                            let ok = (|| -> Option<bool> {
+                                if c.len() < 8 {
+                                    return Some(false);
+                                }
+                                let sl = u16::from_be_bytes([c[6], c[7]]) as usize;
+                                if c.len() < 8 + sl + 3 {
+                                    return Some(false);
+                                }
+                                let pl = u16::from_be_bytes([c[9 + sl], c[10 + sl]]) as usize;
+                                Some(c.len() == 11 + sl + pl && sets.len() == 2 && sl == sets[0].1.len() && pl == sets[1].1.len() && c[8..8 + sl] == sets[0].1[..] && c[11 + sl..] == sets[1].1[..])
+                            })()
+                            .unwrap_or(false);
+                            if !ok {
+                                out.push(v(prop, "parameter-set-length", if sets.iter().any(|s| s.1.len() > 65535) { "avcC:set-over-65535-bytes" } else { "avcC:value" }, format!("avcC ({} bytes) does not carry the first SPS ({} bytes) and PPS ({} bytes) with exact lengths", c.len(), sets.first().map(|s| s.1.len()).unwrap_or(0), sets.get(1).map(|s| s.1.len()).unwrap_or(0))));
+                                return out;
+                            }
+                        }
+                    }
+                    VCodec::H265 => {
+                        if let Some((_, c)) = kids.iter().find(|(t, _)| t == b"hvcC") {
+                            // 22 fixed bytes, numOfArrays, then arrays: type(1) numNalus(2) [len(2) nal]*
+                            let ok = (|| -> Option<bool> {
+                                if c.len() < 23 {
+                                    return Some(false);
+                                }
+                                let mut pos = 23;
+                                let mut got: Vec<Vec<u8>> = Vec::new();
+                                for _ in 0..c[22] {
+                                    if pos + 3 > c.len() {
+                                        return Some(false);
+                                    }
+                                    let nn = u16::from_be_bytes([c[pos + 1], c[pos + 2]]);
+                                    pos += 3;
+                                    for _ in 0..nn {
+                                        if pos + 2 > c.len() {
+                                            return Some(false);
+                                        }
+                                        let l = u16::from_be_bytes([c[pos], c[pos + 1]]) as usize;
+                                        pos += 2;
+                                        if pos + l > c.len() {
+                                            return Some(false);
+                                        }
+                                        got.push(c[pos..pos + l].to_vec());
+                                        pos += l;
+                                    }
+                                }
+                                Some(pos == c.len() && got.len() == 3 && sets.len() == 3 && got.iter().zip(sets.iter()).all(|(a, b)| *a == b.1))
+                            })()
+                            .unwrap_or(false);
+                            if !ok {
+                                out.push(v(prop, "parameter-set-length", if sets.iter().any(|s| s.1.len() > 65535) { "hvcC:set-over-65535-bytes" } else { "hvcC:value" }, format!("hvcC ({} bytes) does not carry the first VPS/SPS/PPS ({:?} bytes) with exact lengths", c.len(), sets.iter().map(|s| s.1.len()).collect::<Vec<_>>())));
+                                return out;
+                            }
+                        }
+                    }
+                    _ => {}
+                }
+            }
+        }
+    }
+    if let (Some(t), Some(acfg)) = (audio_track(&p.movie), case.cfg.audio_effective()) {
+        if t.channels != Some(acfg.channels) {
+            out.push(v(prop, "channels", "sample-entry", format!("audio sample entry says {:?} channels, configured {}", t.channels, acfg.channels)));
+            return out;
+        }
+        let want_rate: u64 = if acfg.codec == ACodec::Opus { 48000 } else { acfg.rate as u64 };
+        let got = t.sample_rate_16_16.unwrap_or(0) as u64;
+        if got != want_rate << 16 {
+            out.push(v(prop, "sample-rate", if want_rate > 65535 { "rate-over-65535" } else { "value" }, format!("audio sample entry rate field {:#x} (= {} Hz), configured {} Hz", got, got >> 16, want_rate)));
+            return out;
+        }
+        if acfg.codec == ACodec::Opus {
+            let kids = child_boxes(&t.stsd_entry, 28);
+            if let Some((_, c)) = kids.iter().find(|(t, _)| t == b"dOps") {
+                if c.len() >= 2 && c[1] as u16 != acfg.channels {
+                    out.push(v(prop, "channels", if acfg.channels > 255 { "dOps:over-255" } else { "dOps:value" }, format!("dOps OutputChannelCount {} but {} channels configured", c[1], acfg.channels)));
+                    return out;
+                }
+            }
+        }
+    }
+    out
+}
